@@ -9,19 +9,19 @@
 (* against the reference walk in MC_WalkImpl) along the events: a step of  *)
 (* the machine that evaluates an entry, reports an error or skips must be  *)
 (* the next event, a step that does none of these is silent.               *)
-(* A record is one run with one starting point and -sorted:                *)
+(* A record is one run with -sorted and any number of starting points:     *)
 (* {"in": {tree, roots, cfg}, "obs": {events: [..], exit}}.                *)
 (***************************************************************************)
 EXTENDS FindWalkImpl, TraceLib
 
-VARIABLES j, rphase     \* j: the next event of record l; rphase: "new" | "run"
-tvars == <<l, j, rphase>>
+VARIABLES j, rphase, rt     \* j: the next event of record l; rphase: "new" | "run"; rt: the starting point being walked
+tvars == <<l, j, rphase, rt>>
 
 In == Rec[l].in
 Events == Rec[l].obs.events
 CfgOf(in) == [mode |-> in.cfg.mode, min |-> in.cfg.min, max |-> in.cfg.max, depth |-> in.cfg.depth, sorted |-> TRUE,
               prune |-> RangeOf(in.cfg.prune), xdev |-> "xdev" \in DOMAIN in.cfg /\ in.cfg.xdev]
-Root(in) == in.roots[1]
+Root(in) == in.roots[rt]
 
 Judged(rec) == "nomount" \notin DOMAIN rec.obs /\ "panic" \notin DOMAIN rec.obs
                /\ ~DevLostLink(rec.in.tree, CfgOf(rec.in))           \* (the open finding: what follows a lost link is not modelled)
@@ -29,12 +29,12 @@ Judged(rec) == "nomount" \notin DOMAIN rec.obs /\ "panic" \notin DOMAIN rec.obs
 Begin ==
   /\ l <= Len(Rec) /\ rphase = "new" /\ Judged(Rec[l])
   /\ stack' = <<>> /\ deferred' = <<>> /\ out' = <<>> /\ errs' = 0 /\ phase' = "start" /\ skipped' = FALSE
-  /\ j' = 1 /\ rphase' = "run" /\ UNCHANGED l
+  /\ j' = 1 /\ rphase' = "run" /\ rt' = 1 /\ UNCHANGED l
 
 NotJudged ==
   /\ l <= Len(Rec) /\ rphase = "new" /\ ~Judged(Rec[l])
   /\ PrintT(<<"SKIP", l>>)
-  /\ l' = l + 1 /\ UNCHANGED <<j, rphase, wvars>>
+  /\ l' = l + 1 /\ UNCHANGED <<j, rphase, rt, wvars>>
 
 \* one step of the machine and the events it accounts for
 Ev(k) == Events[k]
@@ -48,23 +48,30 @@ MachineStep ==
           /\ IF skipped' THEN HasEv(j + 1, "Skip") /\ j' = j + 2 ELSE ~HasEv(j + 1, "Skip") /\ j' = j + 1
      ELSE IF errs' = errs + 1 THEN HasEv(j, "Err") /\ j' = j + 1
      ELSE j' = j
-  /\ UNCHANGED <<l, rphase>>
+  /\ UNCHANGED <<l, rphase, rt>>
+
+\* one starting point is done, the next one begins (the errors add up)
+NextRoot ==
+  /\ l <= Len(Rec) /\ rphase = "run" /\ phase = "done" /\ rt < Len(In.roots)
+  /\ HasEv(j, "Done")
+  /\ stack' = <<>> /\ deferred' = <<>> /\ out' = <<>> /\ phase' = "start" /\ skipped' = FALSE /\ UNCHANGED errs
+  /\ j' = j + 1 /\ rt' = rt + 1 /\ UNCHANGED <<l, rphase>>
 
 \* the loop is over: the code says so too, nothing else was logged, and the exit status tells of the errors
 Finish ==
-  /\ l <= Len(Rec) /\ rphase = "run" /\ phase = "done"
+  /\ l <= Len(Rec) /\ rphase = "run" /\ phase = "done" /\ rt = Len(In.roots)
   /\ HasEv(j, "Done") /\ j = Len(Events)
   /\ (Rec[l].obs.exit # 0) <=> (errs > 0)
-  /\ l' = l + 1 /\ j' = 1 /\ rphase' = "new" /\ UNCHANGED wvars
+  /\ l' = l + 1 /\ j' = 1 /\ rphase' = "new" /\ UNCHANGED <<rt, wvars>>
 
-Step == Begin \/ MachineStep \/ Finish
+Step == Begin \/ MachineStep \/ NextRoot \/ Finish
 
 Reject ==
   /\ l <= Len(Rec) /\ (rphase = "new" => Judged(Rec[l])) /\ ~ENABLED Step
   /\ PrintT(<<"MISMATCH", l, ToJson([event |-> j, phase |-> phase, evaluated |-> Len(out), errs |-> errs, stack |-> Len(stack)])>>)
-  /\ l' = l + 1 /\ j' = 1 /\ rphase' = "new" /\ UNCHANGED wvars
+  /\ l' = l + 1 /\ j' = 1 /\ rphase' = "new" /\ UNCHANGED <<rt, wvars>>
 
-TInit == l = 1 /\ j = 1 /\ rphase = "new" /\ WInit /\ TLCSet(1, 1)
+TInit == l = 1 /\ j = 1 /\ rphase = "new" /\ rt = 1 /\ WInit /\ TLCSet(1, 1)
 Spec == TInit /\ [][Step \/ NotJudged \/ Reject]_<<wvars, tvars>>
 
 Progress == TLCSet(1, IF TLCGet(1) < l THEN l ELSE TLCGet(1))
